@@ -375,6 +375,7 @@ class C09(Prop):
         cases = []
         fmt = [a for a in self.assets if a[2] != "other"]
         other = [a for a in self.assets if a[2] == "other"]
+        groups = mg.group_assets(fmt)
         n_kernel = n // 4
         n_explore = n - n_kernel
         for i, a in enumerate(fmt):
@@ -389,7 +390,7 @@ class C09(Prop):
             elif c == 1 and other:
                 cases.append(self.gen_explore(r, r.choice(other), False))
             else:
-                cases.append(self.gen_explore(r, r.choice(fmt), False))
+                cases.append(self.gen_explore(r, mg.pick_asset(r, groups), False))
             i += 1
         for i in range(n_kernel):
             k = self.gen_kernel(rng.fork("k%d" % i))
